@@ -1,5 +1,7 @@
 package main
 
+import "fmt"
+
 var deepP = []string{"p.parse.matches", "p.shrink.effective", "p.parse.ntl.truncated", "p.reset.data"}
 
 func pSuite(pf pProfile, deepKeys []string) suiteFn {
@@ -66,6 +68,13 @@ func init() {
 		suites["p-reset-stale-"+k] = pSuite(ps.withKinds(k), []string{"p.twin.fresh"})
 	}
 	suites["p-reset-stale"] = pSuite(ps, []string{"p.twin.fresh"})
+	// exhaustive: script k of shard s (8 shards) is case number k*8+s; 7*6*2*2*255 = 42840 cases cover {a,b}^<=7
+	suites["p-exhaustive"] = func(r *rng, id string, cnt counters, emit func(line, out string)) ([]finding, bool) {
+		var sh, k int
+		fmt.Sscanf(id, "%d.%d", &sh, &k)
+		e := genPExhaustive(k*8+sh, id, cnt, emit)
+		return e.finds, true
+	}
 	po := profGeneral.withKinds("OSAP")
 	po.ntlPct = 10
 	suites["p-osap"] = pSuite(po, []string{"osap.block.withmatches"})
